@@ -40,6 +40,7 @@ func NewMotionDetector(args config.ThermalMotion, previewFrames int, camera cptv
 	d.deltaThresh = args.DeltaThresh
 	d.countThresh = args.CountThresh
 	d.tempThresh = args.TempThresh
+	d.initTempThresh = args.TempThresh
 	d.tempThreshMin = args.TempThreshMin
 	d.tempThreshMax = args.TempThreshMax
 	d.warmerOnly = args.WarmerOnly
@@ -71,6 +72,7 @@ type motionDetector struct {
 	dynamicThresh    bool
 	useOneDiff       bool
 	tempThresh       uint16
+	initTempThresh   uint16
 	tempThreshMax    uint16
 	tempThreshMin    uint16
 	deltaThresh      uint16
@@ -92,6 +94,11 @@ type motionDetector struct {
 
 func (d *motionDetector) Reset(camera cptvframe.CameraSpec) {
 	d.backgroundFrames = 0
+	if d.dynamicThresh {
+		// The background is re-seeded from scratch, so the threshold derived
+		// from the old background starts over as well.
+		d.tempThresh = d.initTempThresh
+	}
 	d.count = 0
 	d.flooredFrames.Reset()
 	d.diffFrames.Reset()
